@@ -1,5 +1,5 @@
 """C04 (b): version negotiation end-to-end through KafkaClient on the simulated cluster (engine CL)."""
-from vlib.engines import cl
+from vlib.engines import cl, prod
 from vlib.engines.base import drive, run_trace
 
 
@@ -11,9 +11,20 @@ class Eng(cl.CLEngine):
         return "negotiated-produce-and-fetch" in self.nt
 
 
+class PEng(prod.PRODEngine):
+    """the real Producer picks the message format; the strict parser checks it fits the negotiated produce version"""
+
+    MACROS = ["burst", "burst", "partial"]
+    MACRO_ONE_IN = 4
+
+    def nontrivial(self):
+        return self.config["discovery"] == "on" and any(s.watch is not None and s.watch.state == "ok" for s in self.sends)
+
+
 def shard(ctx):
     drive(ctx, Eng, ctx.n(16 * 40, 16 * 1500), min_steps=8, max_steps=50, offset=77, props={"C04"})
+    drive(ctx, PEng, ctx.n(16 * 30, 16 * 1000), min_steps=6, max_steps=40, offset=78, props={"C04"})
 
 
 def replay(case, ctx):
-    run_trace(Eng, case, ctx, props={"C04"})
+    run_trace(PEng if case.get("engine") == "PROD" else Eng, case, ctx, props={"C04"})
